@@ -6,6 +6,7 @@ mod dump;
 mod gen;
 mod exec;
 mod c01;
+mod c18;
 
 use common::Case;
 use std::fs;
@@ -15,6 +16,7 @@ fn header(prop: &str) -> &'static str {
     match prop {
         "C17" => "From TSG Require Import Model.ContainerOps.\n",
         "C01" | "LAZY" => "From TSG Require Import Model.Run.\n",
+        "C18" => "From TSG Require Import Model.ParseErr.\n",
         _ => "",
     }
 }
@@ -56,6 +58,7 @@ fn main() {
                 "C17" => c17::gen(&mut rng, n),
                 "C01" => c01::gen(&mut rng, n),
                 "LAZY" => c01::gen_mode(&mut rng, n, true),
+                "C18" => c18::gen(&mut rng, n),
                 _ => { eprintln!("unknown property {}", prop); std::process::exit(2) }
             };
             write_cases(&prop, &cases, shards, &out);
@@ -67,6 +70,7 @@ fn main() {
                 "C17" => c17::replay(&j["case"]),
                 "C01" => c01::replay(&j["case"]),
                 "LAZY" => c01::replay_mode(&j["case"], true),
+                "C18" => c18::replay(&j["case"]),
                 _ => { eprintln!("unknown property {}", prop); std::process::exit(2) }
             };
             write_cases(&prop, &[case], 1, &out);
